@@ -288,6 +288,10 @@ func RunOne(t *testing.T, wl *Workload, seed uint64, replay []int32, trace bool)
 	}
 	collectRaces(w)
 	for _, ti := range res.Tasks {
+		if ti.Panic != "" && panicInSimulator(ti.Stack) {
+			out.HarnessErr = fmt.Sprintf("panic raised by the simulator itself in task %s (%s): %s\n%s", ti.ID, ti.Name, ti.Panic, ti.Stack)
+			continue
+		}
 		if ti.Panic != "" && !ti.Lib && !claimed(out, ti) {
 			// harness tasks run library code, so the panic may well be the library's:
 			// report it as a violation of kind panic unless the stack never enters fun.
@@ -312,6 +316,18 @@ func claimed(out *Outcome, ti simrt.TaskInfo) bool {
 	for _, v := range out.Violations {
 		if v.Kind == "panic" && strings.Contains(v.Msg, ti.ID+" ") {
 			return true
+		}
+	}
+	return false
+}
+
+// panicInSimulator reports whether the frame that called panic() belongs to
+// the simulator run-time (a harness limitation, not a library defect).
+func panicInSimulator(stack string) bool {
+	lines := strings.Split(stack, "\n")
+	for i, l := range lines {
+		if strings.HasPrefix(l, "panic(") && i+2 < len(lines) {
+			return strings.HasPrefix(lines[i+2], "verif/simrt.")
 		}
 	}
 	return false
